@@ -34,6 +34,12 @@ theorem C20_order_counterexample :
     is initialised by every constructor (table regenerated from the source). -/
 theorem C20_init : ∀ e ∈ table, e.scalar = true → e.initialised = true := by decide
 
+/-- the table has the row of `SpinLock`'s flag (which has no constructor to name it): it carries a
+    default member initialiser, so a SpinLock member that a holder's constructor does not name (e.g.
+    `ScopedRemover::itemListMutex`) does not start with the previous content of memory — before
+    C++20 a default-constructed `std::atomic_flag` is indeterminate -/
+theorem C20_spinlock_flag : ∃ e ∈ table, e.cls = "SpinLock" ∧ e.scalar = true ∧ e.initialised = true := by decide
+
 /-- all the call sites are of the sequenced shape (bridge to the source) -/
 theorem C20_bridge_sequenced : allSequenced = true := by decide
 
